@@ -544,6 +544,13 @@ class CallMixin:
         sa, sb = self.to_set(V(s, a)), self.to_set(V(s, b))
         x = s.elem.fresh('x')
         return V(sa.sort, z3.Lambda([x], z3.Or(S.select(sa.t, x), S.select(sb.t, x))))
+      if isinstance(s, S.Seq) and v.t.get_id() in S._EXACT_SLICES:
+        # set(base[lo:hi]) with bounds in range: membership stated over the base sequence directly
+        base, lo, hi = S._EXACT_SLICES[v.t.get_id()]
+        ss = S.SetOf(s.elem)
+        x = s.elem.fresh('x')
+        k = z3.FreshConst(z3.IntSort(), 'k')
+        return V(ss, z3.Lambda([x], z3.Exists([k], z3.And(lo <= k, k < hi, s.at(base, k) == x))))
       if isinstance(s, S.Seq):
         ss = S.SetOf(s.elem)
         # a named function of the sequence (congruence: the same sequence gives the same
